@@ -58,8 +58,7 @@ def same(e, a, b):
 
 
 def _valid(e, cond):
-    s = z3.Solver(); s.set('timeout', 10000); s.add(*e.pc); s.add(z3.Not(cond))
-    return s.check() == z3.unsat
+    return e.valid(cond, 10000)
 
 
 def wf(grid):
